@@ -2,7 +2,13 @@
   C16 — simulated devices are independent of each other and restart cleanly.
   Property theorems only (helper lemmas in Lemmas/DummyHeap.lean).  Model: `Dummy.lean` — a heap of channel
   objects, instances hold addresses; `Built` = the worlds that can exist (module state, `DummyDev()` /
-  `DummyDev(channels=<separately built list>)`, any op of any instance).
+  `DummyDev(channels=<separately built list>)`, any op of any instance — in ANY order: constructions may follow ops).
+  A default device created AFTER other instances were driven: `World.newDefault` copies the module-level default objects
+  as they are THEN (`w.heap.take nDefault`); `default_objects_pristine` shows that in every `Built` world these are still
+  the objects the module was imported with (no instance owns one of them: `default_objects_unowned`), so the late device
+  is the pristine default device (`late_default_is_fresh`) and lets a client observe exactly what the first default device
+  ever created would (`late_default_observes_like_first`).  The check constructs instances late (op `n` of
+  Driver/Dummy.lean) in about a third of its histories.
 -/
 import NxsModel.Lemmas.DummyHeap
 import NxsModel.Spec.Wire
@@ -187,6 +193,85 @@ example :
     projOps 1 h = [.start, .write (Spec.wire 3 [1]), .recvStep, .read, .read] ∧
     w.obsFor 1 h = (w.runOn 1 (projOps 1 h)).2 ∧
     w.obsFor 1 h = [.none, .none, .none, .bytes (Spec.wire 3 [0, 10, 1, 0, 0, 0x63, 0x68, 0x61, 0x6e, 0x31]), .bytes []] := by
+  decide +kernel
+
+/-! ### a default device created late starts from the pristine defaults
+
+  `World.newDefault` copies the CURRENT state of the module-level default objects (`w.heap.take nDefault`).  That these
+  are still as at import time in every world that can exist — no instance holds them, no op writes them — is the
+  invariant `Pristine` (Lemmas/DummyHeap.lean, `Built.pristine`). -/
+
+/-- **the module-level default objects are never modified**: in every world that can exist they are as at import time -/
+theorem default_objects_pristine (hc : Gen.Dummy.defaultCopied = true) {w : World} (hb : Built w) :
+    w.heap.take nDefault = defaultObjs := (hb.pristine hc).2.1
+
+/-- … and no instance holds one of them -/
+theorem default_objects_unowned (hc : Gen.Dummy.defaultCopied = true) {w : World} (hb : Built w) (k : Nat) (i : Inst)
+    (hk : w.insts[k]? = some i) : ∀ a ∈ i.addrs, nDefault ≤ a := (hb.pristine hc).2.2 k i hk
+
+/-- **a default device created late is fresh**: whatever instances exist and whatever they were driven through, the
+    instance `DummyDev()` creates now is the new last one, in the constructor's initial state, at fresh addresses, and
+    its channel objects are exactly the import-time defaults -/
+theorem late_default_is_fresh (hc : Gen.Dummy.defaultCopied = true) {w : World} (hb : Built w) (flags rxp snum wpad : Nat) :
+    let w' := w.newDefault flags rxp snum wpad
+    w'.insts[w.insts.length]? = some (newInst (freshAddrs w.heap nDefault) flags rxp snum wpad) ∧
+    gather w'.heap (freshAddrs w.heap nDefault) = defaultObjs := by
+  intro w'
+  have hw : w' = ⟨w.heap ++ defaultObjs, w.insts ++ [newInst (freshAddrs w.heap nDefault) flags rxp snum wpad]⟩ :=
+    newDefault_pristine hc w (hb.pristine hc) flags rxp snum wpad
+  rw [hw]
+  exact ⟨by simp, gather_fresh w.heap defaultObjs⟩
+
+/-- what a client observes on a default device created late: the history on the import-time defaults -/
+theorem late_default_observes (hc : Gen.Dummy.defaultCopied = true) {w : World} (hb : Built w) (flags rxp snum wpad : Nat)
+    (ops : List Op) :
+    ((w.newDefault flags rxp snum wpad).runOn w.insts.length ops).2 =
+      (run defaultObjs (newInst (freshAddrs w.heap nDefault) flags rxp snum wpad) ops).2.2 := by
+  obtain ⟨h1, h2⟩ := late_default_is_fresh hc hb flags rxp snum wpad
+  have hs := (Built.newDefault flags rxp snum wpad hb).sep hc
+  rw [World.runOn_local _ _ ops _ h1 (hs.ok _ _ h1)]
+  show (run (gather _ (freshAddrs w.heap nDefault)) _ ops).2.2 = _
+  rw [h2]
+
+/-- **a default device created late behaves like the first one ever created**: whatever happened to other instances
+    before (`Built w`: any number of devices, any ops on them), every history `ops` on a default device created now
+    lets a client observe exactly what the same history lets it observe on the first default device created after
+    import — responses, stream frames, sample sequences, thread deaths -/
+theorem late_default_observes_like_first (hc : Gen.Dummy.defaultCopied = true) {w : World} (hb : Built w)
+    (flags rxp snum wpad : Nat) (ops : List Op) :
+    ((w.newDefault flags rxp snum wpad).runOn w.insts.length ops).2 =
+      ((World.init.newDefault flags rxp snum wpad).runOn 0 ops).2 := by
+  have h0 := late_default_observes hc Built.init flags rxp snum wpad ops
+  have h0' : ((World.init.newDefault flags rxp snum wpad).runOn 0 ops).2 =
+      (run defaultObjs (newInst (freshAddrs World.init.heap nDefault) flags rxp snum wpad) ops).2.2 := h0
+  rw [late_default_observes hc hb flags rxp snum wpad ops, h0']
+  exact run_addrs_congr defaultObjs _ _ flags rxp snum wpad ops
+    ((freshAddrs_length _ _).trans (freshAddrs_length _ _).symm)
+
+/-! #### non-vacuity -/
+
+/-- a world that exists: default device 0 started, enable-all written and received -/
+example : Built ((World.init.newDefault 3 16 100 0).runOn 0 [.start, .write (Spec.wire 6 [2, 0, 1]), .recvStep]).1 :=
+  (Built.init.newDefault ..).runOn ..
+
+/-- … every channel of device 0 is enabled; a default device created now sits at addresses 22‥32, its channel objects
+    are the import-time defaults (all disabled), device 0 keeps its enabled ones -/
+example :
+    let w := ((World.init.newDefault 3 16 100 0).runOn 0 [.start, .write (Spec.wire 6 [2, 0, 1]), .recvStep]).1
+    let w' := w.newDefault 3 16 100 0
+    (w.insts.map fun i => ensOf (gather w.heap i.addrs)) = [List.replicate 11 true] ∧
+    w'.insts[w.insts.length]? = some (newInst [22, 23, 24, 25, 26, 27, 28, 29, 30, 31, 32] 3 16 100 0) ∧
+    gather w'.heap (freshAddrs w.heap nDefault) = defaultObjs ∧
+    (w'.insts.map fun i => ensOf (gather w'.heap i.addrs)) = [List.replicate 11 true, List.replicate 11 false] := by
+  decide +kernel
+
+/-- … and a channel-info request for channel 1 on the late device is answered "disabled", as on the first device -/
+example :
+    let w := ((World.init.newDefault 3 16 100 0).runOn 0 [.start, .write (Spec.wire 6 [2, 0, 1]), .recvStep]).1
+    let ops : List Op := [.start, .write (Spec.wire 3 [1]), .recvStep, .read]
+    ((w.newDefault 3 16 100 0).runOn w.insts.length ops).2 = ((World.init.newDefault 3 16 100 0).runOn 0 ops).2 ∧
+    ((w.newDefault 3 16 100 0).runOn w.insts.length ops).2 =
+      [.none, .none, .none, .bytes (Spec.wire 3 [0, 10, 1, 0, 0, 0x63, 0x68, 0x61, 0x6e, 0x31])] := by
   decide +kernel
 
 end Nxs.C16
